@@ -42,7 +42,31 @@ pub fn arg_usize(a: &HashMap<String, String>, k: &str, d: usize) -> usize {
 pub fn load_shape(a: &HashMap<String, String>) -> Shape {
     let p = a.get("shape").expect("shape=<file>");
     let txt = if p.starts_with('{') { p.clone() } else { std::fs::read_to_string(p).expect("shape file") };
-    Shape::from_json(&serde_json::from_str(&txt).expect("shape json"))
+    let mut s = Shape::from_json(&serde_json::from_str(&txt).expect("shape json"));
+    // static tables: table lengths / fully assigned input columns depend on the number of usable rows at this k
+    s.resolve(arg_usize(a, "k", 4) as u32);
+    s
+}
+/// vk.cs() lookup arguments as data (C02_S `table-binding`): every input / table expression, a table expression that is
+/// a plain fixed query as ["f", column, rotation]
+pub fn cs_lookups_json<F: ff::Field>(cs: &midnight_proofs::plonk::ConstraintSystem<F>) -> Value {
+    use midnight_proofs::plonk::Expression;
+    Value::Array(
+        cs.lookups()
+            .iter()
+            .map(|l| {
+                let t: Vec<Value> = l
+                    .table_expressions()
+                    .iter()
+                    .map(|e| match e {
+                        Expression::Fixed(q) => json!(["f", q.column_index(), q.rotation().0]),
+                        o => json!(["other", format!("{o:?}").chars().take(200).collect::<String>()]),
+                    })
+                    .collect();
+                json!({"name": l.name(), "n_inputs": l.input_expressions().len(), "tables": t})
+            })
+            .collect(),
+    )
 }
 pub fn lens_of(a: &HashMap<String, String>, ninst: usize) -> Vec<usize> {
     lens_per_proof(a, ninst, 1).remove(0)
@@ -191,6 +215,9 @@ fn run_verifier(a: &HashMap<String, String>) -> Value {
     set_side("S");
     let mut out = json!({"scenario": "verifier", "k": k, "np": np, "nbc": nbc, "lens": lens, "vk": vk_json(&vk),
         "consumed_records": consumed_bytes / REC});
+    out["cs_lookups"] = cs_lookups_json(vk.cs());
+    out["static_tables"] = json!({"urows": shape.urows, "num_fixed_columns": vk.cs().num_fixed_columns(),
+        "tables": shape.tables.iter().map(|t| json!(t.rows)).collect::<Vec<_>>()});
     match res {
         Err(e) => {
             out["prepare_error"] = json!(format!("{e:?}"));
